@@ -64,7 +64,15 @@ func (n *UnquoteNode) MacroType(env *types.GlobalEnvironment) types.Type {
 }
 
 func (n *UnquoteNode) splice(loc *position.Location, args *[]Node, unquote bool) Node {
-	if args == nil || len(*args) == 0 {
+	if args == nil {
+		// deep copy, there is nothing to splice in
+		return &UnquoteNode{
+			TypedNodeBase: TypedNodeBase{loc: position.SpliceLocation(loc, n.loc, unquote), typ: n.typ},
+			Kind:          n.Kind,
+			Expression:    n.Expression.splice(loc, args, unquote).(ExpressionNode),
+		}
+	}
+	if len(*args) == 0 {
 		panic("too few arguments for splicing AST nodes")
 	}
 
